@@ -36,6 +36,11 @@ def apply_variant(v, repo, scratch):
         pr = subprocess.run(["patch", "-R", "-p1", "-s", "-d", scratch], input=diff, capture_output=True, text=True)
         if pr.returncode != 0:
             return f"stale: reverse patch of {v['revert_commit']} does not apply: {pr.stdout[:200]}"
+    if v.get("patch"):
+        pf = os.path.join(VERIF, v["patch"])
+        pr = subprocess.run(["patch", "-p1", "-s", "-d", scratch, "-i", pf], capture_output=True, text=True)
+        if pr.returncode != 0:
+            return f"stale: patch {v['patch']} does not apply: {pr.stdout[:200]}"
     for rel, old, new in v.get("edits", []):
         path = os.path.join(scratch, "src", "resonaate", rel)
         with open(path) as fh:
